@@ -298,33 +298,40 @@ theorem stmt_node (env : Env) (fuel : Nat) (ih : Stmt env fuel) :
         · rename_i st2 acc hbody
           split at h
           · cases h
-          · rename_i st3 acc3 haug
+          · rename_i st3 acc3a haug
             split at h
             · cases h
-            · rename_i c hfin
-              simp only [Except.ok.injEq, Prod.mk.injEq] at h
-              rw [← h.2]
-              obtain ⟨hch, hcfg, hm⟩ := finishInner_facts hd acc3 c hkind hfin
-              -- the children before the augments
-              have hacc : Inv (pcfg hd.cxk) acc := by
-                split at hbody
-                · exact ih.2.2.1 _ _ _ _ _ _ hbody (Inv.nil _)
-                · split at hbody
-                  · cases hbody
-                  · rename_i st4 cs4 h4
+            · rename_i st3b cs3b hops
+              split at h
+              · cases h
+              · rename_i acc3 hconn3
+                split at h
+                · cases h
+                · rename_i c hfin
+                  simp only [Except.ok.injEq, Prod.mk.injEq] at h
+                  rw [← h.2]
+                  obtain ⟨hch, hcfg, hm⟩ := finishInner_facts hd acc3 c hkind hfin
+                  -- the children before the augments
+                  have hacc : Inv (pcfg hd.cxk) acc := by
                     split at hbody
-                    · cases hbody
-                    · rename_i acc5 h5
-                      simp only [Except.ok.injEq, Prod.mk.injEq] at hbody
-                      rw [← hbody.2]
-                      exact inv_connectAll _ _ _ (Inv.nil _) (ih.2.1 _ _ _ _ _ _ h4) h5
-              have hacc3 : Inv (pcfg hd.cxk) acc3 := ih.2.2.2.1 _ _ _ _ _ haug hacc
-              intro c' hc'
-              simp only [List.mem_singleton] at hc'
-              subst hc'
-              refine ⟨fun hp => by rw [hcfg]; exact hunder hp, ?_⟩
-              rw [hpc, ← hcfg] at hacc3
-              exact good_of_parts c' acc3 hch hacc3 hm
+                    · exact ih.2.2.1 _ _ _ _ _ _ hbody (Inv.nil _)
+                    · split at hbody
+                      · cases hbody
+                      · rename_i st4 cs4 h4
+                        split at hbody
+                        · cases hbody
+                        · rename_i acc5 h5
+                          simp only [Except.ok.injEq, Prod.mk.injEq] at hbody
+                          rw [← hbody.2]
+                          exact inv_connectAll _ _ _ (Inv.nil _) (ih.2.1 _ _ _ _ _ _ h4) h5
+                  have hacc3a : Inv (pcfg hd.cxk) acc3a := ih.2.2.2.1 _ _ _ _ _ haug hacc
+                  have hacc3 : Inv (pcfg hd.cxk) acc3 := inv_connectAll _ _ _ hacc3a (ih.2.1 _ _ _ _ _ _ hops) hconn3
+                  intro c' hc'
+                  simp only [List.mem_singleton] at hc'
+                  subst hc'
+                  refine ⟨fun hp => by rw [hcfg]; exact hunder hp, ?_⟩
+                  rw [hpc, ← hcfg] at hacc3
+                  exact good_of_parts c' acc3 hch hacc3 hm
 
 theorem stmt_nodes (env : Env) (fuel : Nat) (ih : Stmt env fuel) :
     ∀ st cx inh pns st' cs, compileNodes env (fuel + 1) st cx inh pns = .ok (st', cs) → Inv (pcfg cx) cs := by
